@@ -25,6 +25,10 @@ def untyped_iri(i):
     return NS[i % 2] + "u%d" % i
 
 
+# IRIs whose scheme is not http(s): an IRI is an IRI whatever its scheme
+ODD_SCHEME_IRIS = ["urn:x:u0", "mailto:u1@ex.org", "tel:+34985000000"]
+
+
 LIT_KINDS = ["str", "lang", "lang2", "integer", "int", "date", "decimal", "custom"]
 
 
@@ -54,7 +58,8 @@ def make_lit(kind, k):
 @st.composite
 def general(draw, max_classes=4, max_nodes=7, max_props=4, max_stmts=30, bnodes=True, lit_kinds=None,
             inst_props=(RDF_TYPE,), bnode_classes=False, class_typing=False, min_stmts=1, untyped=True,
-            single_ns=False, self_links=True, iri_like_literals=False, hash_props=False, unicode_iris=False, colon_locals=False):
+            single_ns=False, self_links=True, iri_like_literals=False, hash_props=False, unicode_iris=False, colon_locals=False,
+            odd_schemes=False):
     """General graphs: 1..max_classes classes, nodes that are IRIs or blank nodes with 0..n classes,
     1..max_props properties; values: literals of several kinds, untyped IRIs / bnodes, typed nodes, the node
     itself.  The statement list is duplicate-free and its order is the document order."""
@@ -119,7 +124,7 @@ def general(draw, max_classes=4, max_nodes=7, max_props=4, max_stmts=30, bnodes=
                     continue
                 o = nodes[k]
             elif vk == "uiri":
-                o = ["iri", untyped_iri(k)]
+                o = ["iri", ODD_SCHEME_IRIS[k] if odd_schemes else untyped_iri(k)]
             elif vk == "ubnode":
                 o = ["bnode", "_:u%d" % k]
             elif vk == "cls":
